@@ -83,3 +83,24 @@ func TestReproPendingSpin(t *testing.T) {
 		}
 	}
 }
+
+// Manual (VERIF_REPRO=skel): print the lock skeletons read off api.go.
+func TestPrintApiSkeleton(t *testing.T) {
+	if os.Getenv("VERIF_REPRO") != "skel" {
+		t.Skip("manual")
+	}
+	repo := os.Getenv("VERIF_REPO")
+	if repo == "" {
+		repo = "/repo"
+	}
+	diffs, found, err := apiSkeletonDiffs(repo)
+	if err != nil {
+		t.Fatal(err)
+	}
+	for fn, sk := range found {
+		t.Logf("%-30s %s", fn, sk)
+	}
+	for fn, d := range diffs {
+		t.Logf("DIFF %s\n  want %s\n  got  %s", fn, d[0], d[1])
+	}
+}
